@@ -3,6 +3,14 @@
 // Coq model on the same inputs and compares projected observables, and it
 // evaluates the property itself on the implementation with oracles that do not
 // use the model (round trips, golang.org/x/tools/txtar).
+//
+// The implementation is compared against BOTH models of the Coq development: the
+// line-based one the theorems are stated about (parse, needsquote, ...) and the
+// statement-level one that follows archive.go index by index (parseidx,
+// needsquoteidx; PANIC / OUTOFFUEL are observable answers).  For every case the
+// model is also asked "holds <hex>": the executable form of the property statement,
+// evaluated on the model itself; an answer other than "true" is a witness that the
+// model (e.g. with a regenerated constant) violates its own theorem.
 package main
 
 import (
@@ -266,21 +274,30 @@ func (rn *runner) mismatch(p pending, i int, model string) {
 		})
 		model = rn.m.Ask1(fn + " " + common.Hex(x))
 	}
+	detail := "model (corrected behaviour, theorems proved about it) and implementation differ"
+	switch fn {
+	case "parseidx", "needsquoteidx":
+		detail = "statement-level model (TxtarIndex.v, follows archive.go index by index) and implementation differ"
+	case "holds", "holds14":
+		detail = "the MODEL violates its own property statement on this input (c03_holds_on / c14_holds_on is not true): the theorems cannot hold for the current constants/definitions; this input is the witness"
+	}
 	rn.res.Violate(common.Violation{Kind: "correspondence", Oracle: fn,
-		Input: map[string]string{"x": common.Hex(x), "x_text": fmt.Sprintf("%q", x), "request": p.reqs[i]},
+		Input: map[string]string{"x": common.Hex(x), "x_text": fmt.Sprintf("%q", x), "request": fn + " " + common.Hex(x)},
 		Model: model, Impl: implFn(fn, x), Key: fn + ":" + common.Hex(x),
-		Detail: "model (corrected behaviour, theorems proved about it) and implementation differ"})
+		Detail: detail})
 }
 
 func implFn(fn string, x []byte) string {
 	switch fn {
-	case "parse":
+	case "parse", "parseidx":
 		return implParse(x)
+	case "holds", "holds14":
+		return "true"
 	case "reparse":
 		return implReparse(x)
 	case "refparse":
 		return refParse(x)
-	case "needsquote":
+	case "needsquote", "needsquoteidx":
 		return implNeedsQuote(x)
 	case "quote":
 		return implQuote(x)
@@ -437,9 +454,9 @@ func main() {
 		p.x, p.tag = x, tag
 		if prop == "C03" {
 			ip := implParse(x)
-			p.fn = []string{"parse", "reparse", "refparse"}
-			p.reqs = []string{"parse " + hx, "reparse " + hx, "refparse " + hx}
-			p.impl = []string{ip, implReparse(x), refParse(x)}
+			p.fn = []string{"parse", "reparse", "refparse", "parseidx", "holds"}
+			p.reqs = []string{"parse " + hx, "reparse " + hx, "refparse " + hx, "parseidx " + hx, "holds " + hx}
+			p.impl = []string{ip, implReparse(x), refParse(x), ip, "true"}
 			nfiles := strings.Count(ip, " ")
 			res.Case(ip, ip == "PANIC" || nfiles > 2 || bytes.Contains(x, []byte("--")))
 			if ip == "PANIC" {
@@ -459,9 +476,9 @@ func main() {
 			}
 		} else {
 			nq := implNeedsQuote(x)
-			p.fn = []string{"needsquote", "quote", "unquote"}
-			p.reqs = []string{"needsquote " + hx, "quote " + hx, "unquote " + hx}
-			p.impl = []string{nq, implQuote(x), implUnquote(x)}
+			p.fn = []string{"needsquote", "quote", "unquote", "needsquoteidx", "holds14"}
+			p.reqs = []string{"needsquote " + hx, "quote " + hx, "unquote " + hx, "needsquoteidx " + hx, "holds14 " + hx}
+			p.impl = []string{nq, implQuote(x), implUnquote(x), nq, "true"}
 			res.Case(hx, bytes.Contains(x, []byte("--")) || bytes.Contains(x, []byte(">")))
 			res.Count("needsquote:" + nq)
 			res.Count("quote:" + strings.SplitN(p.impl[1], " ", 2)[0])
@@ -570,6 +587,7 @@ func main() {
 		}
 	}
 	res.Exhaustive = false
+	res.Notes = append(res.Notes, "every case is compared against the line-based model AND the statement-level model (parseidx / needsquoteidx, with PANIC and OUTOFFUEL as observable answers), and the model is asked to evaluate its own property statement (holds / holds14) on it")
 	res.Rule = fmt.Sprintf("corpus, then every string over the alphabet %q up to length %d, marker-shaped strings, %d structured texts built from marker look-alike lines with LF/CRLF/CR endings, %d random byte strings (and well-formed archives for the Format/Parse law); a case is non-trivial when it contains \"--\" (C03: or yields files / panics; C14: or contains '>'); distinct = distinct parse result (C03) or distinct input (C14)", sigma, maxLen, nStruct, nRand)
 	res.Write(f.Out)
 }
